@@ -111,6 +111,15 @@ func implBytes(m *dns.Message) (b []byte, res string) {
 	return b, "ok " + core.Hex(b)
 }
 
+// randIP16 is an IPv6 address; a quarter of them are IPv4-mapped (::ffff:a.b.c.d), which are legal
+// AAAA / ipv6hint contents and must stay 16 octets on the wire.
+func randIP16(r *rand.Rand) net.IP {
+	if r.IntN(4) == 0 {
+		return net.IP(gen.Cat(make([]byte, 10), []byte{0xff, 0xff}, gen.RandBytes(r, 4)))
+	}
+	return net.IP(gen.RandBytes(r, 16))
+}
+
 func randRR(r *rand.Rand, kind int) dns.RR {
 	rr := dns.RR{Name: randName(r), Class: 1, TTL: r.Uint32()}
 	if r.IntN(10) == 0 {
@@ -120,7 +129,7 @@ func randRR(r *rand.Rand, kind int) dns.RR {
 	case 0:
 		rr.Type, rr.Data = 1, net.IP(gen.RandBytes(r, 4))
 	case 1:
-		rr.Type, rr.Data = 28, net.IP(gen.RandBytes(r, 16))
+		rr.Type, rr.Data = 28, randIP16(r)
 	case 2:
 		rr.Type, rr.Data = []uint16{2, 5, 12}[r.IntN(3)], randName(r)
 	case 3:
@@ -149,7 +158,7 @@ func randRR(r *rand.Rand, kind int) dns.RR {
 			h.IPv4Hint = append(h.IPv4Hint, net.IP(gen.RandBytes(r, 4)))
 		}
 		for i := 0; i < r.IntN(3); i++ {
-			h.IPv6Hint = append(h.IPv6Hint, net.IP(gen.RandBytes(r, 16)))
+			h.IPv6Hint = append(h.IPv6Hint, randIP16(r))
 		}
 		if r.IntN(2) == 0 {
 			h.ECH = gen.RandBytes(r, 1+r.IntN(100))
@@ -189,6 +198,27 @@ func genC13(env *core.Env, emit func(core.Case)) {
 		emit(core.Case{Name: fmt.Sprintf("%s/%d", stream, idx), Stream: stream, Ops: ops, Key: stream + "/" + sig, Sig: stream + "/" + sig + "/" + outcome,
 			Sample: map[string]any{"stream": stream, "what": sig, "outcome": outcome, "encoded_len": len(b)}})
 		env.Count(stream + "/" + outcome)
+	}
+	// HTTPS / SVCB records as other encoders write them: SvcParamKeys in increasing order starting with
+	// key 0 (mandatory), keys this package has no field for (dohpath 7, private-use 65000), any target
+	for i := 0; i < env.Pick(300, 4000); i++ {
+		idx++
+		d := &gen.DNSBuilder{}
+		d.Header(uint16(r.IntN(65536)), 0x8180, 1, 1, 0, 0)
+		labels := gen.RandLabels(r, 4)
+		typ := []int{65, 65, 64}[r.IntN(3)]
+		d.Question(r, gen.NameStyle(0), labels, typ, 1)
+		d.RR(r, gen.NameStyle(0), labels, typ, 1, uint32(r.IntN(100000)), rdataGen(r, d, typ, false), 0)
+		dec := dnsDecodeText(d.B)
+		w := ""
+		if dec == "err" || strings.HasPrefix(dec, "panic") {
+			w = "a well-formed " + fmt.Sprint(typ) + " record with SvcParamKeys in increasing order does not decode: " + dec
+		}
+		ops := []core.Op{{Line: "dns-decode " + core.Hex(d.B), Kind: 'M', Want: dec, Note: "DecodeMessage of a foreign HTTPS/SVCB record"},
+			{Kind: 'X', Note: "records written by other RFC 9460 encoders decode", Want: w}}
+		emit(core.Case{Name: fmt.Sprintf("foreign-svcb/%d", idx), Stream: "foreign-svcb", Ops: ops, Key: "foreign-svcb", Sig: fmt.Sprintf("foreign-svcb/%d/%v", typ, w == ""),
+			Sample: map[string]any{"stream": "foreign-svcb", "type": typ, "len": len(d.B)}})
+		env.Count("foreign-svcb/" + connh0(dec))
 	}
 	// header: exhaustive
 	for fl := 0; fl < 32; fl++ {
